@@ -101,7 +101,10 @@ fn allocate_jit_memory_unix(_src: &FuncPtrInternal, code_size: usize) -> *mut u8
             if ptr != libc::MAP_FAILED {
                 let allocated = ptr as u64;
                 let diff = allocated.abs_diff(original_addr);
-                if diff <= max_range {
+                // Strictly inside the range: a branch reaches +max_range - 4 at most, so a
+                // block at exactly +max_range would be accepted here and rejected (and
+                // leaked) by the patcher's own range check.
+                if diff < max_range {
                     return ptr as *mut u8;
                 } else {
                     unsafe { libc::munmap(ptr, code_size) };
@@ -165,7 +168,8 @@ fn allocate_jit_memory_windows(_src: &FuncPtrInternal, code_size: usize) -> *mut
             if !ptr.is_null() {
                 let allocated = ptr as u64;
                 let diff = allocated.abs_diff(original_addr);
-                if diff <= max_range {
+                // Strictly inside the range, see allocate_jit_memory_unix.
+                if diff < max_range {
                     return ptr as *mut u8;
                 } else {
                     unsafe {
